@@ -443,9 +443,9 @@ def build_sample(name, dim, tmp, seed):
         W.S[2] = _read(os.path.join(SAMPLE, "unary.dump"), 3)
     else:
         W.scale = 1.0
-        W.S[1] = _head(_read(os.path.join(SAMPLE, "2d", "2ddump.s.atom"), 2), 3)
-        W.S[2] = _head(_read(os.path.join(SAMPLE, "2d", "dump.nematic.atom"), 2), 2)
-        W.ORI[2] = _head(_read(os.path.join(SAMPLE, "2d", "dump.nematic.atom"), 2, vec=[5, 6]), 2)
+        W.S[1] = _head(_read(os.path.join(SAMPLE, "2d", "2ddump.s.atom"), 2), 2)
+        W.S[2] = _head(_read(os.path.join(SAMPLE, "2d", "dump.nematic.atom"), 2), 1)
+        W.ORI[2] = _head(_read(os.path.join(SAMPLE, "2d", "dump.nematic.atom"), 2, vec=[5, 6]), 1)
     return _finish_world(W)
 
 
@@ -877,9 +877,9 @@ def c_boo3d(Z, s, v):
     from PyMatterSim.static.boo import boo_3d
     W = Z.W
     if v == 0:
-        o = boo_3d(W.S[s], l=6, neighborfile=W.nbr[s], ppp=_ppp(Z, s), Nmax=30)
+        o = boo_3d(W.S[s], l=4, neighborfile=W.nbr[s], ppp=_ppp(Z, s), Nmax=30)
     else:
-        o = boo_3d(W.S[s], l=4, neighborfile=W.nbr[s], weightsfile=W.wts[s], ppp=_ppp(Z, s, 1), Nmax=30)
+        o = boo_3d(W.S[s], l=6, neighborfile=W.nbr[s], weightsfile=W.wts[s], ppp=_ppp(Z, s, 1), Nmax=30)
     Z.obj[("boo3d", s)], Z.cv[("boo3d", s)] = o, (v, None)
     return Z.state_digest("boo3d", s), None
 
@@ -1449,6 +1449,82 @@ def build_traces(chosen, results, rep):
     return traces, index, nsteps
 
 
+def validate_chunks(w, header, recs, limit=60000):
+    """one TLC run per world (memo shared by all its sessions); very long traces (thorough) are cut at session
+    boundaries into chunks of at most `limit` records, each with its own memo"""
+    if len(recs) <= limit:
+        return validate_world(w, header, recs)
+    cuts, start = [], 0
+    begins = [i for i, r in enumerate(recs) if r["op"] == "begin"] + [len(recs)]
+    for b in begins[1:]:
+        if b - start > limit:
+            last = max(x for x in begins if start < x <= start + limit)
+            cuts.append((start, last))
+            start = last
+    cuts.append((start, len(recs)))
+    res, rejects, keys = common.TlcResult(), [], 0
+    for (a, b) in cuts:
+        r, rej, k = validate_world(f"{w}[{a}:{b}]", header, recs[a:b])
+        res.merge(r)
+        rejects += [(a + i, c) for i, c in rej]
+        keys = max(keys, k)
+    return res, rejects, keys
+
+
+def corrupt_one_field(w, header, recs):
+    """Self-test of the trace specification: five single-field corruptions of the recorded trace of one world
+    (each in a different session) must be rejected at exactly that record, by the expected clause."""
+    import copy
+    recs = copy.deepcopy(recs)
+    names, owner, ot = header["names"], header["owner"], header["ot"]
+    top = 1 + max([r["res"] for r in recs if r["op"] == "call"] + [0])
+    sess, want, used, seen = 0, {}, set(), set()
+    todo = ["RepeatDiffers", "InputModified", "FileDiffers", "CursorMoved", "StateModified"]
+    for i, r in enumerate(recs):
+        if r["op"] == "begin":
+            sess += 1
+            continue
+        role = REG[r["e"] - 1]["role"]
+        key = (r["e"], r["s"], r["v"])
+        if sess in used or r["err"] or (r["d1"] and role not in ("ctor", "setter")):
+            continue            # the rest of a corrupted session is skipped by the specification
+        kind = None
+        if "RepeatDiffers" in todo and role == "fn" and key in seen:
+            kind, r["res"] = "RepeatDiffers", top
+            clause = "RepeatDiffers"
+        elif "InputModified" in todo and role == "fn":
+            j = next(k for k, nm in enumerate(names) if nm.endswith(".positions") and ot[k] == r["s"])
+            kind, r["d1"] = "InputModified", [[j + 1, top]]
+            clause = "InputModified:" + names[j]
+        elif "FileDiffers" in todo and r["fok"] == 1:
+            kind, r["fok"] = "FileDiffers", 0
+            clause = "FileDiffers"
+        elif "CursorMoved" in todo and role == "fn":
+            kind, r["cur"] = "CursorMoved", [r["cur"][0], r["cur"][1] + 1]
+            clause = "CursorMoved"
+        elif "StateModified" in todo and role == "method":
+            fam = REG[r["e"] - 1]["fam"]
+            j = next(k for k in range(len(names)) if owner[k] == fam and ot[k] == r["s"])
+            kind, r["d1"] = "StateModified", [[j + 1, top]]
+            clause = "StateModified:" + names[j]
+        if role == "fn" and not kind:
+            seen.add(key)
+        if kind:
+            todo.remove(kind)
+            used.add(sess)
+            want[i] = clause
+        if not todo:
+            break
+    if todo:
+        raise MachineryError(f"corrupt-one-field: no record found for {todo}")
+    r, rejects, _ = validate_world(w + " (corrupted)", header, recs)
+    got = dict(rejects)
+    for i, clause in want.items():
+        if got.get(i) != clause:
+            raise MachineryError(f"corrupt-one-field: record {i} corrupted for {clause!r}, TraceSession said {got.get(i)!r}")
+    return r, sorted(want.values())
+
+
 def header_record(w):
     W = WORLDS[w]
     d = world_descriptor(W)
@@ -1521,8 +1597,12 @@ def run(tier, replay=None):
         chk.extra["library_calls"] = nsteps
         import concurrent.futures as cf
         with cf.ThreadPoolExecutor(max_workers=4) as ex:
-            vals = {w: ex.submit(validate_world, w, header_record(w), recs) for w, recs in traces.items()}
+            vals = {w: ex.submit(validate_chunks, w, header_record(w), recs) for w, recs in traces.items()}
             vals = {w: f.result() for w, f in vals.items()}
+        w0 = "w2" if "w2" in traces else sorted(traces)[0]
+        r0, clauses = corrupt_one_field(w0, header_record(w0), traces[w0])
+        chk.add_tlc(r0, f"TraceSession {w0} corrupt-one-field")
+        chk.extra["trace_corruptions_rejected"] = clauses
         badcases = set()
         for w, (r, rejects, nkeys) in vals.items():
             chk.add_tlc(r, f"TraceSession {w}")
